@@ -8,7 +8,7 @@ import (
 	"github.com/Comcast/sheens/core"
 	"github.com/Comcast/sheens/interpreters/ecmascript"
 	"pgregory.net/rapid"
-	"verif/internal/jsongen"
+	"verif/lib/jsongen"
 )
 
 // ABranch is an abstract branch.
